@@ -608,17 +608,24 @@ func g8aShort(stmts []string) string {
 	return fmt.Sprintf("[%d stmts, last: %s]", len(stmts), last)
 }
 
-// g8aWaitApplied waits until follower f has applied (FSM included) everything
-// the leader l has in its log. It returns false when the deadline passes.
+// g8aWaitApplied waits until node f has applied (FSM included) everything the
+// leader l has in its log. raft's AppliedIndex only says that an entry was
+// handed to the FSM goroutine, so the FSM is considered drained when fsmIdx
+// has reached the last *command* entry of f's own log (f's log holds every
+// entry up to its applied index; the leader's log cannot be used for this: a
+// snapshot with few trailing logs may have removed all command entries from
+// it). Returns false when the deadline passes.
 func g8aWaitApplied(l, f *Store, deadline time.Time) bool {
 	for {
 		last := l.raft.LastIndex()
-		var lastCmd uint64
-		if fi, li, err := l.boltStore.Indexes(); err == nil && li != 0 {
-			lastCmd, _ = l.boltStore.LastCommandIndex(fi, li)
-		}
-		if f.raft.AppliedIndex() >= last && f.fsmIdx.Load() >= lastCmd {
-			return true
+		if f.raft.AppliedIndex() >= last {
+			var lastCmd uint64
+			if fi, li, err := f.boltStore.Indexes(); err == nil && li != 0 {
+				lastCmd, _ = f.boltStore.LastCommandIndex(fi, li)
+			}
+			if f.fsmIdx.Load() >= lastCmd {
+				return true
+			}
 		}
 		if time.Now().After(deadline) {
 			return false
